@@ -110,7 +110,11 @@ var gHostsBad = []string{"a b", "a:b", "%00", "[", "a]", "[::g]", "-1", "1.-2", 
 var gHostsIDNA = []string{"é.com", "xn--a", "XN--nxasmq6b.com", "www.xn--x.com", "xn--nxasmq6b", "a≠b", "Ｅｘａｍｐｌｅ.com", "faß.de", "a\u00adb.com", "\u200d.x", "xn--", "日本語.jp", "a≮b", "%C3%A9.com", "a\U0001F600b"}
 var gPorts = []string{"", "0", "80", "443", "21", "8080", "65535", "65536", "1", "81", "444", "22", "00080", "000", "65534", "8"}
 var gPortsBad = []string{"x", "8x", " 9", "-1", "+8", "8/9", "8?x", "8#", "8\\", "99999999999999999999", "\t8", "8\n0", "00000000000000000080", "1e3", "8:9", "0x50", "８", "\x00", "\xff", "8 "}
-var gPaths = []string{"", "/", "/a", "/a/b", "/a/../b", "/./a", "//x", "/.//x", "/a b", "/%2e%2E/x", "/C:/x", "/C|/x", "C|", "/a?b", "/a#b", "\\x\\y", "/a%zz", "/é", "/\x00", "a", "..", ".", "/a/", "  ", "/ ", "/..", "/../..", "a/./b/", "/%2E", "/.%2e/", "C:", "/C:", "c|/", "/a\tb", "?", "#", "/{}`\"<>^|", "/\xff", "//", "///", "/.", "/a/.", "/a/..", "\\", "/\\", "/a/b/c/d", "/C|", "/c:/../..", "/C|/../x", "//C|/x", "/a//b", "/a/b/../../..", "/%2e/%2e%2e", "x y", "/x  ", "a  ", "/:@", "/;=", "/a%20b", "/%", "/%4", "/~", "/*"}
+var gPaths = []string{"", "/", "/a", "/a/b", "/a/../b", "/./a", "//x", "/.//x", "/a b", "/%2e%2E/x", "/C:/x", "/C|/x", "C|", "/a?b", "/a#b", "\\x\\y", "/a%zz", "/é", "/\x00", "a", "..", ".", "/a/", "  ", "/ ", "/..", "/../..", "a/./b/", "/%2E", "/.%2e/", "C:", "/C:", "c|/", "/a\tb", "?", "#", "/{}`\"<>^|", "/\xff", "//", "///", "/.", "/a/.", "/a/..", "\\", "/\\", "/a/b/c/d", "/C|", "/c:/../..", "/C|/../x", "//C|/x", "/a//b", "/a/b/../../..", "/%2e/%2e%2e", "x y", "/x  ", "a  ", "/:@", "/;=", "/a%20b", "/%", "/%4", "/~", "/*",
+	// segment-count boundaries
+	"/1/2/3/4/5/6/7", "/1/2/3/4/5/6/7/8", "/1/2/3/4/5/6/7/8/9", "/a/b/c/d/e/f/g/h/i/j/k/l/m/n/o/p", "/a/b/c/d/e/f/g/h/i/j/k/l/m/n/o/p/q",
+	"/a/b/c/../../../../x", "/a/./b/./c/./d/./e/.", "/0/1/2/3/4/5/6/7/8/9/10/11/12/13/14/15/16/17/18/19/20/21/22/23/24/25/26/27/28/29/30/31/32",
+	"/a/b/c/d/../../../../../../e", "/..//../", "/a/%2e%2e/%2e%2e/%2e%2e/b"}
 var gQueries = []string{"", "?", "a=1", "?a=1&b=2", "a=1&a=2", "a b=c+d", "%26=%3D", "a&&b", "=x", "a='", "x=#y", "é=ü", "a=%zz", "+", "a=1%2B1", " ", "a  ", "??", "?#", "\t", "a\nb", "\"<>`{}", "\x00", "\xff", "a", "a=", "=", "&", "&&", "a=b=c", "%41=%42", "a+b=c%20d", "a=%2", "%=%", "a=1&b", "x=%C3%A9", "x=%E2%82", "a%00=b", "b=2&a=1&b=1", "a=1&A=2", "k=v&k=v", "'", "a='&b", "q=a#b", "/?/", "a=1;b=2"}
 var gFrags = []string{"", "#", "f", "#f g", "a`b", "é", "%", "x\ty", "  ", "##", "#?", "\"<>`{}", "\x00", "\xff", "a#b", "frag", " x", "x ", "%41", "%zz", "/?:@"}
 var gUsers = []string{"", "u", "u:p", "a@b", "a:b:c", "é", "%", " ", "/?#", "%41", "\x00", "\xff", "[]\\^|`{}", "~!$&'()*+,;=", "user", "pw", ":", "@", "%zz", "a b", "u%40"}
